@@ -211,3 +211,54 @@ def depot_tour_reward_rowlocal(u, file, qual, clsname, static=False):
 
     call = (lambda u, ins: u.run(file, qual, ins["td"], ins["actions"])) if static else (lambda u, ins: u.run(file, qual, ins["td"], ins["actions"], selfobj=env))
     rowlocal(u, "reward", mk_in, call, requires=req)
+
+
+def reward_pad_invariant(u, file, qual, clsname, make_td, n_nodes, tags=("C04", "C03"), static=False, selfattrs=None, extra_requires=None):
+    """Padding invariance of a reward that is one 'sum' over the action sequence: appending the depot padding
+    action (0) to a finished row's actions does not change its reward.
+    Run 1: actions A [B,T]; run 2: A' [B,T+1] with A'[:, :T] = A and A'[:, T] = 0 (same instance data)."""
+    from tvc.unit import sum_split_last
+
+    ctx = cur()
+    B, T = u.dims("B T")
+    u.requires(T >= 2)
+    td1 = make_td(u, B)
+    act = u.tensor("actions", (B, T), "i")
+    u.requires(u.forall((B, T), lambda b, t: AND(act.at(b, t) >= 0, act.at(b, t) < n_nodes)))
+    if extra_requires is not None:
+        u.requires(extra_requires(u, td1, B))
+    act2 = ops.cat([act, ops.const_tensor((B, 1), "i", 0)], 1)
+    env = u.obj(file, clsname, **(selfattrs or {}))
+    call = (lambda a: u.run(file, qual, td1, a)) if static else (lambda a: u.run(file, qual, td1, a, selfobj=env))
+    m0 = len(ctx.reds)
+    r1 = call(act)
+    m1 = len(ctx.reds)
+    r2 = call(act2)
+    reds = list(ctx.reds.values())
+    sums1 = [r for r in reds[m0:m1] if r.kind == "sum" and r.outer_rank == 1]
+    sums2 = [r for r in reds[m1:] if r.kind == "sum" and r.outer_rank == 1]
+    b = u.idx((B,), "b")
+    for s1, s2 in zip(sums1, sums2):
+        t1 = mk((B,), s1.dtype, lambda I, s1=s1: s1.app((I[0],)), prov=("red", s1))
+        t2 = mk((B,), s2.dtype, lambda I, s2=s2: s2.app((I[0],)), prov=("red", s2))
+        # prefix of the padded sum with the length of the unpadded one (spec-level), then lemma instances:
+        # S2(n+1) = prefix(n) + last summand; prefix(n) = S1(n) by extensionality (summand-wise equal)
+        pre_t = ops.reduce("sum", mk((B, s1.ns[0]), s2.dtype, lambda I, s2=s2: s2.body((I[0],), (I[1],))), -1, label="padprefix")
+        sum_split_last(u, _at_row(t2, b), (), _at_row(pre_t, b), ())
+        # each sum of the reward is unchanged by the padding step (proved one by one, then combined by pure algebra)
+        u.prove(f"reward.pad.sum{len(sums1) - len(sums1[sums1.index(s1):])}-invariant", t2.at(b) == t1.at(b), tags=tags, assume=True)
+    same_tensor(u, "reward.pad.shape", r2, tuple(r1.shape), lambda *I: r2.at(*I), tags=tags)
+    u.prove("reward.pad-invariant", r2.at(b) == r1.at(b), tags=tags, algebra_only=bool(sums1))
+
+
+def _at_row(t, b):
+    red = t.prov[1]
+
+    class _R:
+        pass
+
+    r2 = _R()
+    r2.ns, r2.dtype = red.ns, red.dtype
+    r2.body = lambda o, ks: red.body((b,), ks)
+    r2.app = lambda o: red.app((b,))
+    return mk((), red.dtype, lambda I: red.app((b,)), prov=("red", r2))
